@@ -165,6 +165,11 @@ class Executor(ExprMixin):
             return [fresh(prefix, ValSeq)]
         if ty == "pos":
             return [PyTuple([fresh(prefix + "_l", I), fresh(prefix + "_c", I)])]
+        if ty.startswith("union["):
+            out = []
+            for t in ty[6:-1].split("|"):
+                out.extend(self.mk(t.strip(), prefix, st))
+            return out
         if ty == "version":
             a, b = fresh(prefix + "_maj", I), fresh(prefix + "_min", I)
             st.assume(z3.And(a >= 0, b >= 0))
@@ -1015,6 +1020,8 @@ class Executor(ExprMixin):
         st.assume(self.spec_funcs["tk_ok"](self, st, tk))
         st.assume(self.spec_funcs["can_peek"](self, st, tk))
         st.assume(self.spec_funcs["cache_ok"](self, st, nc, tk))
+        if "toks_wf" in self.spec_funcs:
+            st.assume(self.spec_funcs["toks_wf"](self, st, tk))
         for cl in (self.cur.rulefn_preserves if self.cur else ()):
             self.assuming = True
             try:
@@ -1062,23 +1069,40 @@ class Executor(ExprMixin):
         old.pc = st.pc
         ss.old = old
         out = []
+        def exc_of(p, cls, why):
+            ex = Exc(cls, node.lineno, why)
+            shape = "SyntaxError" if cls in ("SyntaxError", "IndentationError") else None
+            if shape and shape in self.classes:
+                ex.obj = self.mk("obj:" + shape, "exc", p)[0]
+                ex.obj.cls = cls
+                if c.raises_ensures:
+                    se = St()
+                    se.pc, se.env, se.old = p.pc, dict(env), old
+                    se.env["exc"] = ex.obj
+                    self.assuming = True
+                    try:
+                        for en in c.raises_ensures:
+                            p.assume(Tr(self.spec_eval(en, se)))
+                    finally:
+                        self.assuming = False
+            return ex
+
         # raising outcomes
         for cls, cond in c.raises_when.items():
             g = Tr(self.spec_eval(cond, old))
             st_r = st.clone()
             if self.feasible(st_r, g):
                 st_r.assume(g)
-                ex = Exc(cls, node.lineno, f"raised by {short}")
-                out.append((st_r, ex))
+                out.append((st_r, exc_of(st_r, cls, f"raised by {short}")))
             st.assume(z3.Not(g))
         if c.always_raises:
             cls = c.raises[0] if c.raises else "Exception"
             for m in c.modifies:
                 self.havoc_path(st, m, "m_", env)
-            return out + [(st, Exc(cls, node.lineno, f"always raised by {short}"))]
+            return out + [(st, exc_of(st, cls, f"always raised by {short}"))]
         for cls in c.may_raise:
             st_r = st.clone()
-            out.append((st_r, Exc(cls, node.lineno, f"may be raised by {short}")))
+            out.append((st_r, exc_of(st_r, cls, f"may be raised by {short}")))
         for m in c.modifies:
             self.havoc_path(st, m, "m_", env)
         results = self.mk(c.returns, "ret", st) if c.returns else [NONE]
